@@ -55,7 +55,7 @@ def amuset_case(draw):
     npairs = draw(st.sampled_from([1, 1, 2, 3]))
     pairs = []
     for _ in range(npairs):
-        kind = draw(st.sampled_from(['lag', 'lag', 'subset', 'negative']))
+        kind = draw(st.sampled_from(['lag', 'lag', 'subset', 'negative', 'resampled', 'same_object']))
         if kind == 'lag':
             lag = draw(st.integers(1, 3))
             n = draw(st.integers(2, m - lag))
@@ -68,6 +68,17 @@ def amuset_case(draw):
             n = draw(st.integers(2, m - lag))
             xi = list(range(-n - lag, -lag))
             yi = list(range(-n, 0))
+        elif kind == 'resampled':
+            # transition pairs drawn WITH replacement (bootstrap): a pair (x_j, y_j) may occur several times and counts that often
+            n = draw(st.integers(3, m + 2))
+            picks = draw(st.lists(st.integers(0, m - 2), min_size=n, max_size=n))
+            xi = list(picks)
+            yi = [j + 1 for j in picks]
+        elif kind == 'same_object':
+            # lag 0: ONE index array handed over for both snapshot sets (the operator is then the projector onto the span of Psi_x)
+            n = draw(st.integers(2, m))
+            xi = draw(st.lists(st.integers(0, m - 1), min_size=n, max_size=n, unique=True))
+            yi = list(xi)
         else:
             n = draw(st.integers(2, m))
             xi = draw(st.lists(st.integers(0, m - 1), min_size=n, max_size=n, unique=True))
@@ -171,7 +182,7 @@ def body(c):
     lab = {c['variant']}
     pairs = c['pairs']
     X = [np.array(p[0], dtype=int) for p in pairs]
-    Y = [np.array(p[1], dtype=int) for p in pairs]
+    Y = [(X[j] if p[2] == 'same_object' else np.array(p[1], dtype=int)) for j, p in enumerate(pairs)]
     if c.get('basis_used_before'):
         other = np.array(np.asarray(x)[:, ::-1], dtype=np.asarray(x).dtype) * (1 if np.asarray(x).dtype.kind in 'iu' else 0.75)
         try:
@@ -195,6 +206,10 @@ def body(c):
         lab.add('subset_indices')
     if any(p[2] == 'negative' for p in pairs):
         lab.add('negative_indices')
+    if any(p[2] == 'resampled' and len(set(p[0])) < len(p[0]) for p in pairs):
+        lab.add('repeated_transition_pairs')
+    if any(p[2] == 'same_object' for p in pairs):
+        lab.add('one_index_array_for_both_sets')
     if len(nmodes) >= 2:
         lab.add('multi_mode')
     if any(len(f) == 1 and f[0]['family'] != 'constant' for f in c['phi']):
